@@ -76,6 +76,12 @@ def _corpus(rng):
     out.append(G.gen_input(rng, nt=2, st=[0, 0, 1, 1], sc=[1, 1, 2, 2], **small))
     out.append(G.gen_input(rng, nt=3, st=[0, 1, 2, 2], sc=[1, 0, 2, 2], **small))       # swap only
     out.append(G.gen_input(rng, nt=3, st=[0, 1, 2], sc=[7, 7, 2], nc=16, ns=2, shanks='none', whitening='diag', geometry='line2'))
+    # stage 3 (History.v): a phy history -- merge(0, 1) -> 3, phy split of 3 -> 4 and 5 (BOTH halves renumbered, id 3 left empty);
+    # a merge whose fresh id max + 1 is the id of a template WITHOUT spikes (cluster id < n_templates carrying a mean);
+    # a reassignment into an existing, otherwise untouched cluster (not producible by merges / splits: an id is re-used)
+    out.append(G.gen_input(rng, nt=3, st=[0, 0, 1, 1, 2], sc=[4, 4, 5, 5, 2], **small))
+    out.append(G.gen_input(rng, nt=4, st=[0, 1, 2, 0], sc=[3, 3, 2, 3], nc=5, ns=2, shanks='two', whitening='none'))
+    out.append(G.gen_input(rng, nt=2, st=[0, 0, 1], sc=[0, 1, 1], **small))
     # merged cluster plus a template without any spike, more than 12 channels
     out.append(G.gen_input(rng, nt=4, st=[0, 0, 2, 2, 2], sc=[1, 1, 1, 2, 4], nc=13, ns=3, shanks='none', whitening='none', style='local'))
     return out
@@ -233,6 +239,11 @@ def dist(case, obs):
             if len(v) >= 2 and v[-1] == v[-2]:
                 tie = True
         out.append('count_tie=%s' % tie)
+        # a present id below n_templates whose own template has no spike at all (a fresh id max + 1 that re-uses the number of
+        # an unused template), and an id <= max(st) that holds a spike of another template (re-use: needs a reassignment)
+        used_t = set(inp['st'])
+        out.append('id_of_unused_template=%s' % any(c < len(inp['tmpl']) and c not in used_t for c in present))
+        out.append('id_reused=%s' % any(k <= max(inp['st']) and k != t for t, k in zip(inp['st'], inp['sc'])))
     else:
         out.append('unused_last_template=%s' % (max(inp['st']) + 1 < len(inp['tmpl'])))
         nt_, used = len(inp['tmpl']), set(inp['st'])
